@@ -354,7 +354,9 @@ class Tracker:
                     scoring_method(f, x.feature)
                     for x in candidates_feature_dict[track_id]
                 ]
-                oks = scoring_reduction(oks)  # scoring reduction
+                # scoring reduction; a track without candidate in the window has no
+                # score (NaN) - `np.nanmax([])` would raise.
+                oks = scoring_reduction(oks) if len(oks) > 0 else np.nan
                 scores[f_idx][track_id] = oks
 
         return scores
